@@ -13,12 +13,29 @@
   * `marshal_total`  : for well-typed values under a well-formed atlas the outcome is a token stream or an
                        error, never a panic, and the result does not depend on the fuel once it is large enough
                        (the functional model terminates: no endless stream).
+
+  Results.
+  * `marshal_wf`, `marshal_fuel_mono`, `struct_count_matches_walk` are proved as first written.
+    `marshal_wf_strong` adds that every leaf of the tree is a scalar token (`Leaves`; without it a stray
+    close token could hide in a `.scalar`), `struct_count_matches_walk_strong` that the header count is the
+    number of fields passing the ignore / unreachable / omitempty filter and that exactly that many pairs follow,
+    `marshal_fuel_mono_le` extends monotonicity to any larger fuel.
+    Proof shape: induction on the fuel, simultaneously for `marshalV`, `marshalBare`, `marshalList`,
+    `marshalEntries`, `marshalFields` (`all_fuel`, `all_mono`, `all_bound`).
+  * `marshal_bound_plain` is FALSE as first written (kept as `marshal_bound_plain_statement`, refuted by
+    `marshal_bound_plain_false`; three independent counterexamples `cex_run`, `cex2_run`, `cex3_run`): these are
+    defects of the statement (coefficient too small for keyed unions, unconstrained atlas, fuel-bounded `valNodes`
+    versus one-step pointer peeling), not of the model.  Proved instead:
+      `marshal_bound`             : ≤ 5 · valNodes, keyed unions allowed (`PlainAtlas`, `NoPtrPtr`);
+      `marshal_bound_two`         : ≤ 2 · valNodes without unions (`PlainAtlasNoUnion`, `NoPtrPtr`);
+      `marshal_bound_plain_fixed` : the original conclusion `≤ 3 · valNodes + 2` under the latter hypotheses.
 -/
 import RefmtModel
+import RefmtProofs.Lemmas.ObjMarshal
 set_option linter.unusedSimpArgs false
 set_option linter.unusedVariables false
 namespace Refmt.C07
-open Refmt Refmt.Obj
+open Refmt Refmt.Obj Refmt.ObjL
 
 mutual
   /-- every key is an untagged string scalar -/
@@ -41,10 +58,248 @@ def leafOk : TV → Bool
   | .scalar t => t.body.isScalar
   | _ => true
 
+mutual
+  /-- every leaf of the tree is a scalar token (no stray open / close token hides in a `.scalar`) -/
+  def Leaves : TV → Bool
+    | .scalar t => t.body.isScalar
+    | .arr _ _ items => LeavesL items
+    | .map _ _ es => LeavesE es
+  def LeavesL : List TV → Bool
+    | [] => true
+    | v :: vs => Leaves v && LeavesL vs
+  def LeavesE : List (TV × TV) → Bool
+    | [] => true
+    | (k, v) :: es => Leaves k && Leaves v && LeavesE es
+end
+
+/-- one well-formed item -/
+def Good (tv : TV) : Prop := tv.lengthsOk = true ∧ KeysStr tv = true ∧ Leaves tv = true
+def GoodL (l : List TV) : Prop := TV.lengthsOkList l = true ∧ KeysStrL l = true ∧ LeavesL l = true
+def GoodE (l : List (TV × TV)) : Prop := TV.lengthsOkEntries l = true ∧ KeysStrE l = true ∧ LeavesE l = true
+
+theorem good_scalar {t : Tok} (h : t.body.isScalar = true) : Good (.scalar t) := by
+  simp [Good, TV.lengthsOk, KeysStr, Leaves, h]
+theorem good_arr {tag : Option Int} {items : List TV} (h : GoodL items) : Good (.arr tag items.length items) := by
+  simp [Good, TV.lengthsOk, KeysStr, Leaves, h.1, h.2.1, h.2.2]
+theorem good_map {tag : Option Int} {es : List (TV × TV)} (h : GoodE es) : Good (.map tag es.length es) := by
+  simp [Good, TV.lengthsOk, KeysStr, Leaves, h.1, h.2.1, h.2.2]
+theorem goodL_nil : GoodL [] := by simp [GoodL, TV.lengthsOkList, KeysStrL, LeavesL]
+theorem goodL_cons {v : TV} {vs : List TV} (h : Good v) (hs : GoodL vs) : GoodL (v :: vs) := by
+  simp [GoodL, TV.lengthsOkList, KeysStrL, LeavesL, h.1, h.2.1, h.2.2, hs.1, hs.2.1, hs.2.2]
+theorem goodE_nil : GoodE [] := by simp [GoodE, TV.lengthsOkEntries, KeysStrE, LeavesE]
+theorem goodE_cons {s : Bytes} {v : TV} {es : List (TV × TV)} (h : Good v) (hs : GoodE es) :
+    GoodE ((.scalar ⟨.str s, none⟩, v) :: es) := by
+  simp [GoodE, TV.lengthsOkEntries, KeysStrE, LeavesE, TV.lengthsOk, Leaves, Body.isScalar, h.1, h.2.1, h.2.2, hs.1, hs.2.1, hs.2.2]
+theorem good_setTag {g : Int} {tv : TV} (h : Good tv) : Good (setTag g tv) := by
+  cases tv <;> simpa [Good, setTag, TV.lengthsOk, KeysStr, Leaves] using h
+
+/-! ### the five invariants -/
+section
+variable (ts : Types) (a : Atlas) (trs : Trs)
+
+def PV (fuel : Nat) : Prop := ∀ id v toks, marshalV ts a trs fuel id v = ⟨toks, none⟩ → ∃ tv : TV, toks = tv.flatten ∧ Good tv
+def PB (fuel : Nat) : Prop := ∀ id m v toks, marshalBare ts a trs fuel id m v = ⟨toks, none⟩ → ∃ tv : TV, toks = tv.flatten ∧ Good tv
+def PL (fuel : Nat) : Prop := ∀ e es toks, marshalList ts a trs fuel e es = ⟨toks, none⟩ →
+  ∃ tvs : List TV, toks = TV.flattenList tvs ∧ tvs.length = es.length ∧ GoodL tvs
+def PE (fuel : Nat) : Prop := ∀ vt kvs toks, marshalEntries ts a trs fuel vt kvs = ⟨toks, none⟩ →
+  ∃ es : List (TV × TV), toks = TV.flattenEntries es ∧ es.length = kvs.length ∧ GoodE es
+def PF (fuel : Nat) : Prop := ∀ fs v toks, marshalFields ts a trs fuel fs v = ⟨toks, none⟩ →
+  ∃ es : List (TV × TV), toks = TV.flattenEntries es ∧ es.length = fs.length ∧ GoodE es
+
+theorem null_good : ∃ tv : TV, [(⟨.null, none⟩ : Tok)] = tv.flatten ∧ Good tv :=
+  ⟨.scalar ⟨.null, none⟩, rfl, good_scalar rfl⟩
+
+theorem pv_step (fuel : Nat) (hb : PB ts a trs fuel) : PV ts a trs (fuel + 1) := by
+  intro id v toks h
+  simp only [marshalV] at h
+  split at h
+  · exact hb _ _ _ _ h
+  · split at h
+    · rw [ok_inv h]; exact null_good
+    · exact hb _ _ _ _ h
+
+theorem pl_step (fuel : Nat) (hv : PV ts a trs fuel) (hl : PL ts a trs fuel) : PL ts a trs (fuel + 1) := by
+  intro e es toks h
+  cases es with
+  | nil =>
+    simp only [marshalList] at h
+    rw [ok_inv h]; exact ⟨[], rfl, rfl, goodL_nil⟩
+  | cons x xs =>
+    simp only [marshalList] at h
+    obtain ⟨t1, t2, h1, h2, rfl⟩ := seq_inv h
+    obtain ⟨tv, rfl, g1⟩ := hv _ _ _ h1
+    obtain ⟨tvs, rfl, hlen, g2⟩ := hl _ _ _ h2
+    exact ⟨tv :: tvs, by simp [TV.flattenList], by simp [hlen], goodL_cons g1 g2⟩
+
+theorem pe_step (fuel : Nat) (hv : PV ts a trs fuel) (he : PE ts a trs fuel) : PE ts a trs (fuel + 1) := by
+  intro vt kvs toks h
+  cases kvs with
+  | nil =>
+    simp only [marshalEntries] at h
+    rw [ok_inv h]; exact ⟨[], rfl, rfl, goodE_nil⟩
+  | cons kx rest =>
+    obtain ⟨k, x⟩ := kx
+    simp only [marshalEntries] at h
+    obtain ⟨t0, t12, h0, h12, rfl⟩ := seq_inv h
+    obtain ⟨t1, t2, h1, h2, rfl⟩ := seq_inv h12
+    obtain ⟨tv, rfl, g1⟩ := hv _ _ _ h1
+    obtain ⟨es, rfl, hlen, g2⟩ := he _ _ _ h2
+    rw [ok_inv h0]
+    exact ⟨(.scalar ⟨.str k, none⟩, tv) :: es, by simp [TV.flattenEntries, TV.flatten], by simp [hlen], goodE_cons g1 g2⟩
+
+theorem pf_step (fuel : Nat) (hv : PV ts a trs fuel) (hf : PF ts a trs fuel) : PF ts a trs (fuel + 1) := by
+  intro fs v toks h
+  cases fs with
+  | nil =>
+    simp only [marshalFields] at h
+    rw [ok_inv h]; exact ⟨[], rfl, rfl, goodE_nil⟩
+  | cons f rest =>
+    simp only [marshalFields] at h
+    split at h
+    · exact absurd h bad_ne
+    · obtain ⟨t0, t12, h0, h12, rfl⟩ := seq_inv h
+      obtain ⟨t1, t2, h1, h2, rfl⟩ := seq_inv h12
+      obtain ⟨tv, rfl, g1⟩ := hv _ _ _ h1
+      obtain ⟨es, rfl, hlen, g2⟩ := hf _ _ _ h2
+      rw [ok_inv h0]
+      exact ⟨(.scalar ⟨.str f.name, none⟩, tv) :: es, by simp [TV.flattenEntries, TV.flatten], by simp [hlen], goodE_cons g1 g2⟩
+
+
+theorem prim_good (id : Nat) (v : Val) (toks : List Tok) (h : primTok ts id v = ⟨toks, none⟩) :
+    ∃ tv : TV, toks = tv.flatten ∧ Good tv := by
+  unfold primTok at h
+  split at h <;> first
+    | exact absurd h bad_ne
+    | (rw [ok_inv h]; exact ⟨.scalar _, rfl, good_scalar rfl⟩)
+
+theorem arr_good (fuel e : Nat) (es : List Val) (toks : List Tok) (hl : PL ts a trs fuel)
+    (h : ((MOut.ok [⟨.arrOpen es.length, none⟩]).seq fun _ =>
+           (marshalList ts a trs fuel e es).seq fun _ => .ok [⟨.arrClose, none⟩]) = ⟨toks, none⟩) :
+    ∃ tv : TV, toks = tv.flatten ∧ Good tv := by
+  obtain ⟨t0, t12, h0, h12, rfl⟩ := seq_inv h
+  obtain ⟨t1, t2, h1, h2, rfl⟩ := seq_inv h12
+  obtain ⟨tvs, rfl, hlen, g⟩ := hl _ _ _ h1
+  rw [ok_inv h0, ok_inv h2, ← hlen]
+  exact ⟨.arr none tvs.length tvs, by simp [TV.flatten], good_arr g⟩
+
+theorem pb_step (fuel : Nat) (hv : PV ts a trs fuel) (hb : PB ts a trs fuel) (hl : PL ts a trs fuel)
+    (he : PE ts a trs fuel) (hf : PF ts a trs fuel) : PB ts a trs (fuel + 1) := by
+  intro id m v toks h
+  cases m with
+  | prim => unfold marshalBare at h; simp only at h; exact prim_good ts id v toks h
+  | errThunk => unfold marshalBare at h; simp only at h; exact absurd h bad_ne
+  | panic => unfold marshalBare at h; simp only at h; exact absurd h bad_ne
+  | wildcard =>
+    unfold marshalBare at h; simp only at h
+    split at h
+    · rw [ok_inv h]; exact null_good
+    · exact hv _ _ _ h
+    · exact absurd h bad_ne
+  | slice e =>
+    unfold marshalBare at h; simp only at h
+    split at h
+    · rw [ok_inv h]; exact null_good
+    · exact arr_good ts a trs fuel e _ toks hl h
+    · exact absurd h bad_ne
+  | array e =>
+    unfold marshalBare at h; simp only at h
+    split at h
+    · exact arr_good ts a trs fuel e _ toks hl h
+    · exact absurd h bad_ne
+  | map kt vt mode =>
+    unfold marshalBare at h; simp only at h
+    split at h
+    · exact absurd h bad_ne
+    · next kf es _ =>
+      split at h
+      · exact absurd h bad_ne
+      · next kvs hkvs =>
+        split at h
+        · rw [ok_inv h]; exact null_good
+        · obtain ⟨t0, t12, h0, h12, rfl⟩ := seq_inv h
+          obtain ⟨t1, t2, h1, h2, rfl⟩ := seq_inv h12
+          obtain ⟨tes, rfl, hlen, g⟩ := he _ _ _ h1
+          have hl2 : (es.getD []).length = tes.length := by
+            rw [hlen, sortKeys_length, mapM_length _ _ _ hkvs]
+          rw [ok_inv h0, ok_inv h2, hl2]
+          exact ⟨.map none tes.length tes, by simp [TV.flatten], good_map g⟩
+    · exact absurd h bad_ne
+  | structMap e fields =>
+    unfold marshalBare at h; simp only at h
+    obtain ⟨t0, t12, h0, h12, rfl⟩ := seq_inv h
+    obtain ⟨t1, t2, h1, h2, rfl⟩ := seq_inv h12
+    obtain ⟨es, rfl, hlen, g⟩ := hf _ _ _ h1
+    rw [ok_inv h0, ok_inv h2, ← hlen]
+    exact ⟨.map e.tag es.length es, by simp [TV.flatten], good_map g⟩
+  | transform e fn mty =>
+    unfold marshalBare at h; simp only at h
+    split at h
+    · exact absurd h bad_ne
+    · next tv htv =>
+      cases hr : marshalV ts a trs fuel mty tv with
+      | mk rt rf =>
+        rw [hr] at h
+        have hrf : rf = none := by
+          have := congrArg MOut.fail h
+          cases htag : e.tag <;> cases rt <;> simpa [retagFirst, htag] using this
+        subst hrf
+        obtain ⟨tv', rfl, g⟩ := hv _ _ _ hr
+        cases htag : e.tag with
+        | none =>
+          rw [htag] at h
+          simp [retagFirst] at h
+          exact ⟨tv', h.symm, g⟩
+        | some gg =>
+          rw [htag, retag_flatten] at h
+          simp at h
+          exact ⟨setTag gg tv', h.symm, good_setTag g⟩
+  | union e members =>
+    unfold marshalBare at h; simp only at h
+    split at h
+    · exact absurd h bad_ne
+    · split at h
+      · exact absurd h bad_ne
+      · split at h
+        · exact absurd h bad_ne
+        · next _ name idx _ _ me hme =>
+          split at h
+          · exact absurd h bad_ne
+          · obtain ⟨t0, t12, h0, h12, rfl⟩ := seq_inv h
+            obtain ⟨t1, t2, h1, h2, rfl⟩ := seq_inv h12
+            obtain ⟨tv, rfl, g⟩ := hb _ _ _ _ h1
+            rw [ok_inv h0, ok_inv h2]
+            exact ⟨.map none (1 : Nat) [(.scalar ⟨.str name, none⟩, tv)], by simp [TV.flatten, TV.flattenEntries],
+              good_map (es := [(.scalar ⟨.str name, none⟩, tv)]) (goodE_cons g goodE_nil)⟩
+    · exact absurd h bad_ne
+
+theorem all_fuel (fuel : Nat) :
+    PV ts a trs fuel ∧ PB ts a trs fuel ∧ PL ts a trs fuel ∧ PE ts a trs fuel ∧ PF ts a trs fuel := by
+  induction fuel with
+  | zero =>
+    refine ⟨?_, ?_, ?_, ?_, ?_⟩
+    · intro id v toks h; simp only [marshalV] at h; exact absurd h bad_ne
+    · intro id m v toks h; simp only [marshalBare] at h; exact absurd h bad_ne
+    · intro e es toks h; simp only [marshalList] at h; exact absurd h bad_ne
+    · intro e es toks h; simp only [marshalEntries] at h; exact absurd h bad_ne
+    · intro e es toks h; simp only [marshalFields] at h; exact absurd h bad_ne
+  | succ n ih =>
+    obtain ⟨hv, hb, hl, he, hf⟩ := ih
+    exact ⟨pv_step ts a trs n hb, pb_step ts a trs n hv hb hl he hf, pl_step ts a trs n hv hl,
+      pe_step ts a trs n hv he, pf_step ts a trs n hv hf⟩
+
+end
+
+theorem marshal_wf_strong (ts : Types) (a : Atlas) (trs : Trs) (fuel id : Nat) (v : Val) (toks : List Tok)
+    (h : marshalV ts a trs fuel id v = ⟨toks, none⟩) :
+    ∃ tv : TV, toks = tv.flatten ∧ tv.lengthsOk = true ∧ KeysStr tv = true ∧ Leaves tv = true :=
+  (all_fuel ts a trs fuel).1 id v toks h
+
 theorem marshal_wf (ts : Types) (a : Atlas) (trs : Trs) (fuel id : Nat) (v : Val) (toks : List Tok)
     (h : marshalV ts a trs fuel id v = ⟨toks, none⟩) :
     ∃ tv : TV, toks = tv.flatten ∧ tv.lengthsOk = true ∧ KeysStr tv = true := by
-  sorry
+  obtain ⟨tv, h1, h2, h3, _⟩ := marshal_wf_strong ts a trs fuel id v toks h
+  exact ⟨tv, h1, h2, h3⟩
+
 
 /-- number of nodes of a value, counting what transforms return (they are applied at most once per node) -/
 def valNodes : Nat → Val → Nat
@@ -59,19 +314,848 @@ def valNodes : Nat → Val → Nat
     | .struct fs => 1 + (fs.map fun x => 1 + valNodes fuel x).sum
     | _ => 1
 
-/-- Token count is linear in the size of the value, for values that contain no transformed types
-    (a transform may return an arbitrarily large serial form, which is then what is measured). -/
-theorem marshal_bound_plain (ts : Types) (a : Atlas) (trs : Trs) (fuel id : Nat) (v : Val) (toks : List Tok)
-    (hnotr : ∀ e ∈ a.pool, ∀ fn m u, e.k ≠ .transform fn m u)
+
+/-! ### `marshal_bound_plain` as first stated is false
+
+  Three independent defects of the *statement* (none is a defect of the marshaller model):
+  1. a keyed union costs three tokens (`{`, member name, `}`) that `valNodes` does not count (`.iface` adds no node),
+     so the coefficient 3 is too small as soon as unions occur in a slice / map / struct;
+  2. the atlas is unconstrained: a struct-map entry may list the same field any number of times;
+  3. `valNodes fuel` spends one unit of fuel per pointer level, the marshaller peels a whole pointer chain
+     in one step, so `valNodes fuel` may see nothing of a value the marshaller walks completely. -/
+
+/-- The statement as first written (false):
+    "Token count is linear in the size of the value, for values that contain no transformed types
+    (a transform may return an arbitrarily large serial form, which is then what is measured)." -/
+def marshal_bound_plain_statement : Prop :=
+  ∀ (ts : Types) (a : Atlas) (trs : Trs) (fuel id : Nat) (v : Val) (toks : List Tok),
+    (∀ e ∈ a.pool, ∀ fn m u, e.k ≠ .transform fn m u) →
+    marshalV ts a trs fuel id v = ⟨toks, none⟩ →
+    toks.length ≤ 3 * valNodes fuel v + 2
+
+def cexTrs : Trs := ⟨fun _ _ => none, fun _ _ => none⟩
+
+/-- counterexample 1: `[]I{S{}, S{}}` where `I` is an interface registered as a keyed union with member
+    `"s" ↦ S`, `S = struct{}`: 12 tokens `[ {"s":{}} {"s":{}} ]`, 3 nodes, 3·3+2 = 11 -/
+def cexTs : Types := [(0, .slice 1), (1, .iface true), (2, .struct [])]
+def cexAtlas : Atlas := ⟨[⟨true, 1, none, .union [([115], 1)]⟩, ⟨true, 2, none, .structMap []⟩], .default⟩
+def cexVal : Val := .slice (some [.iface (some (2, .struct [])), .iface (some (2, .struct []))])
+def cexToks : List Tok :=
+  [⟨.arrOpen 2, none⟩,
+   ⟨.mapOpen 1, none⟩, ⟨.str [115], none⟩, ⟨.mapOpen 0, none⟩, ⟨.mapClose, none⟩, ⟨.mapClose, none⟩,
+   ⟨.mapOpen 1, none⟩, ⟨.str [115], none⟩, ⟨.mapOpen 0, none⟩, ⟨.mapClose, none⟩, ⟨.mapClose, none⟩,
+   ⟨.arrClose, none⟩]
+
+theorem cex_run : marshalV cexTs cexAtlas cexTrs 10 0 cexVal = ⟨cexToks, none⟩ := by
+  with_unfolding_all rfl
+
+theorem cex_nodes : valNodes 10 cexVal = 3 := by decide
+
+theorem marshal_bound_plain_false : ¬ marshal_bound_plain_statement := by
+  intro h
+  have := h cexTs cexAtlas cexTrs 10 0 cexVal cexToks
+    (by intro e he; simp [cexAtlas] at he; rcases he with rfl | rfl <;> simp) cex_run
+  rw [cex_nodes] at this
+  revert this
+  decide
+
+/-- counterexample 2 (no unions, no pointers): `struct{X int}{7}` under a struct-map entry listing field `x` five
+    times: 12 tokens, 3 nodes -/
+def cex2Field : SMField := ⟨[120], false, [0], 1, false⟩
+def cex2Ts : Types := [(0, .struct [⟨[88], 1, true, false, none⟩]), (1, .prim .int true)]
+def cex2Atlas : Atlas := ⟨[⟨true, 0, none, .structMap [cex2Field, cex2Field, cex2Field, cex2Field, cex2Field]⟩], .default⟩
+def cex2Val : Val := .struct [.int 7]
+
+theorem cex2_run : ∃ toks, marshalV cex2Ts cex2Atlas cexTrs 10 0 cex2Val = ⟨toks, none⟩ ∧
+    toks.length = 12 ∧ 3 * valNodes 10 cex2Val + 2 = 11 :=
+  ⟨(marshalV cex2Ts cex2Atlas cexTrs 10 0 cex2Val).toks, by with_unfolding_all rfl, by with_unfolding_all rfl,
+   by decide⟩
+
+/-- counterexample 3 (empty atlas): an eight-fold pointer to `[]int{1,2,3,4}` at fuel 8: six tokens, but
+    `valNodes 8` runs out of fuel on the pointers and counts a single node (with fuel 9 it counts 5) -/
+def cex3Ts : Types :=
+  [(0, .ptr 1), (1, .ptr 2), (2, .ptr 3), (3, .ptr 4), (4, .ptr 5), (5, .ptr 6), (6, .ptr 7), (7, .ptr 8),
+   (8, .slice 9), (9, .prim .int true)]
+def cex3P (v : Val) : Val := .ptr (some v)
+def cex3Val : Val :=
+  cex3P (cex3P (cex3P (cex3P (cex3P (cex3P (cex3P (cex3P (.slice (some [.int 1, .int 2, .int 3, .int 4])))))))))
+
+theorem cex3_run : ∃ toks, marshalV cex3Ts ⟨[], .default⟩ cexTrs 8 0 cex3Val = ⟨toks, none⟩ ∧
+    toks.length = 6 ∧ 3 * valNodes 8 cex3Val + 2 = 5 :=
+  ⟨(marshalV cex3Ts ⟨[], .default⟩ cexTrs 8 0 cex3Val).toks, by with_unfolding_all rfl, by with_unfolding_all rfl,
+   by decide⟩
+
+/-! ### sums -/
+
+theorem sum_map_le {α : Type} (l : List α) (f g : α → Nat) (h : ∀ x ∈ l, f x ≤ g x) :
+    (l.map f).sum ≤ (l.map g).sum := by
+  induction l with
+  | nil => simp
+  | cons x xs ih =>
+    simp only [List.map_cons, List.sum_cons]
+    have := h x (by simp)
+    have := ih (fun y hy => h y (by simp [hy]))
+    omega
+
+theorem sum_map_mul {α : Type} (l : List α) (c : Nat) (f : α → Nat) :
+    (l.map fun x => c * f x).sum = c * (l.map f).sum := by
+  induction l with
+  | nil => simp
+  | cons x xs ih => simp only [List.map_cons, List.sum_cons, ih, Nat.mul_add]
+
+theorem sum_set_zero (ws : List Nat) (i : Nat) : (ws.set i 0).sum + ws[i]?.getD 0 = ws.sum := by
+  induction ws generalizing i with
+  | nil => simp
+  | cons w ws ih =>
+    cases i with
+    | zero => simp; omega
+    | succ i => simp only [List.set_cons_succ, List.sum_cons, List.getElem?_cons_succ]; have := ih i; omega
+
+/-- a sum over pairwise distinct indices is at most the whole sum -/
+theorem sum_idx_le (idxs : List Nat) (hnd : idxs.Nodup) (ws : List Nat) :
+    (idxs.map fun i => ws[i]?.getD 0).sum ≤ ws.sum := by
+  induction idxs generalizing ws with
+  | nil => simp
+  | cons i is ih =>
+    rw [List.nodup_cons] at hnd
+    simp only [List.map_cons, List.sum_cons]
+    have h1 := ih hnd.2 (ws.set i 0)
+    have h2 := sum_set_zero ws i
+    have h3 : (is.map fun j => (ws.set i 0)[j]?.getD 0) = (is.map fun j => ws[j]?.getD 0) := by
+      apply List.map_congr_left
+      intro j hj
+      have : i ≠ j := fun hij => hnd.1 (hij ▸ hj)
+      simp [List.getElem?_set, this]
+    rw [h3] at h1
+    omega
+
+/-! ### `valNodes` -/
+
+theorem valNodes_zero (v : Val) : valNodes 0 v = 1 := rfl
+theorem valNodes_slice (k : Nat) (l : List Val) : valNodes (k+1) (.slice (some l)) = 1 + (l.map (valNodes k)).sum := rfl
+theorem valNodes_arr (k : Nat) (l : List Val) : valNodes (k+1) (.arr l) = 1 + (l.map (valNodes k)).sum := rfl
+theorem valNodes_map (k : Nat) (l : List (Val × Val)) :
+    valNodes (k+1) (.map (some l)) = 1 + (l.map fun p => 1 + valNodes k p.2).sum := rfl
+theorem valNodes_struct (k : Nat) (l : List Val) :
+    valNodes (k+1) (.struct l) = 1 + (l.map fun x => 1 + valNodes k x).sum := rfl
+theorem valNodes_ptr (k : Nat) (x : Val) : valNodes (k+1) (.ptr (some x)) = valNodes k x := rfl
+theorem valNodes_iface (k d : Nat) (x : Val) : valNodes (k+1) (.iface (some (d, x))) = valNodes k x := rfl
+
+theorem valNodes_pos (k : Nat) (v : Val) : 1 ≤ valNodes k v := by
+  induction k generalizing v with
+  | zero => simp [valNodes]
+  | succ k ih =>
+    cases v with
+    | slice o => cases o with
+      | none => simp [valNodes]
+      | some l => rw [valNodes_slice]; omega
+    | map o => cases o with
+      | none => simp [valNodes]
+      | some l => rw [valNodes_map]; omega
+    | ptr o => cases o with
+      | none => simp [valNodes]
+      | some x => rw [valNodes_ptr]; exact ih x
+    | iface o => cases o with
+      | none => simp [valNodes]
+      | some p => obtain ⟨d, x⟩ := p; rw [valNodes_iface]; exact ih x
+    | arr l => rw [valNodes_arr]; omega
+    | struct l => rw [valNodes_struct]; omega
+    | _ => simp [valNodes]
+
+theorem valNodes_mono (k : Nat) (v : Val) : valNodes k v ≤ valNodes (k + 1) v := by
+  induction k generalizing v with
+  | zero => simpa [valNodes] using valNodes_pos 1 v
+  | succ k ih =>
+    cases v with
+    | slice o => cases o with
+      | none => simp [valNodes]
+      | some l =>
+        rw [valNodes_slice, valNodes_slice]
+        have := sum_map_le l (valNodes k) (valNodes (k+1)) (fun x _ => ih x)
+        omega
+    | map o => cases o with
+      | none => simp [valNodes]
+      | some l =>
+        rw [valNodes_map, valNodes_map]
+        have := sum_map_le l (fun p => 1 + valNodes k p.2) (fun p => 1 + valNodes (k+1) p.2)
+          (fun x _ => by have := ih x.2; omega)
+        omega
+    | ptr o => cases o with
+      | none => simp [valNodes]
+      | some x => rw [valNodes_ptr, valNodes_ptr]; exact ih x
+    | iface o => cases o with
+      | none => simp [valNodes]
+      | some p => obtain ⟨d, x⟩ := p; rw [valNodes_iface, valNodes_iface]; exact ih x
+    | arr l =>
+      rw [valNodes_arr, valNodes_arr]
+      have := sum_map_le l (valNodes k) (valNodes (k+1)) (fun x _ => ih x)
+      omega
+    | struct l =>
+      rw [valNodes_struct, valNodes_struct]
+      have := sum_map_le l (fun x => 1 + valNodes k x) (fun x => 1 + valNodes (k+1) x)
+        (fun x _ => by have := ih x; omega)
+      omega
+    | _ => simp [valNodes]
+
+theorem valNodes_mono_le {k k' : Nat} (h : k ≤ k') (v : Val) : valNodes k v ≤ valNodes k' v := by
+  induction h with
+  | refl => exact Nat.le_refl _
+  | step _ ih => exact Nat.le_trans ih (valNodes_mono _ v)
+
+
+/-! ### hypotheses of the corrected bounds
+
+  The induction is run once for a coefficient `c` that is `5` (keyed unions allowed, each costs three extra
+  tokens that `valNodes` does not count) or `2` (no unions). -/
+
+/-- struct-map field lists the bound is about: every route is a single field index, no index occurs twice -/
+def SimpleFields (fs : List SMField) : Prop :=
+  (∀ f ∈ fs, ∃ i, f.route = [i]) ∧ (fs.map (·.route)).Nodup
+
+/-- the atlas has no transforms, only direct, pairwise distinct struct fields, and unions only if `c = 5`,
+    and then never a union directly inside a union -/
+structure PlainAtlasC (c : Nat) (a : Atlas) : Prop where
+  notr : ∀ e ∈ a.pool, ∀ fn m u, e.k ≠ .transform fn m u
+  fields : ∀ e ∈ a.pool, ∀ fs, e.k = .structMap fs → SimpleFields fs
+  unions : ∀ e ∈ a.pool, ∀ ms, e.k = .union ms →
+    c = 5 ∧ ∀ p ∈ ms, ∀ me, a.pool[p.2]? = some me → ∀ ms', me.k ≠ .union ms'
+
+/-- no pointer-to-pointer types -/
+def NoPtrPtr (ts : Types) : Prop := ∀ id e e', ts.get id = .ptr e → ts.get e ≠ .ptr e'
+
+def MOk (c : Nat) (a : Atlas) : Mach → Prop
+  | .structMap _ fs => SimpleFields fs
+  | .transform _ _ _ => False
+  | .union _ ms => c = 5 ∧ ∀ p ∈ ms, ∀ me, a.pool[p.2]? = some me → ∀ ms', me.k ≠ .union ms'
+  | _ => True
+
+def isContainer : Mach → Bool
+  | .structMap _ _ | .map _ _ _ | .panic | .errThunk => true
+  | _ => false
+
+theorem mok_entry (ts : Types) {c : Nat} {a : Atlas} (hpa : PlainAtlasC c a) {e : Entry} (he : e ∈ a.pool) :
+    MOk c a (machForEntry ts e) := by
+  unfold machForEntry
+  split
+  · next fn m u hk => exact absurd hk (hpa.notr e he fn m u)
+  · next fs hk => exact hpa.fields e he fs hk
+  · next ms hk => exact hpa.unions e he ms hk
+  · split <;> trivial
+  · trivial
+
+theorem container_entry (ts : Types) {c : Nat} {a : Atlas} (hpa : PlainAtlasC c a) {e : Entry} (he : e ∈ a.pool)
+    (hnu : ∀ ms, e.k ≠ .union ms) : isContainer (machForEntry ts e) = true := by
+  unfold machForEntry
+  split
+  · next fn m u hk => exact absurd hk (hpa.notr e he fn m u)
+  · rfl
+  · next ms hk => exact absurd hk (hnu ms)
+  · split <;> rfl
+  · rfl
+
+theorem mok_pick (ts : Types) {c : Nat} {a : Atlas} (hpa : PlainAtlasC c a) (id : Nat) : MOk c a (pickBare ts a id) := by
+  unfold pickBare
+  split
+  · trivial
+  · trivial
+  · split
+    · next e he => exact mok_entry ts hpa (List.mem_of_find?_eq_some he)
+    · split <;> trivial
+
+theorem peel_nonptr (ts : Types) (fuel n id : Nat) (h : ∀ e, ts.get id ≠ .ptr e) : peel ts fuel n id = (n, id) := by
+  cases fuel with
+  | zero => rfl
+  | succ fuel =>
+    unfold peel
+    split
+    · next e he => exact absurd he (h e)
+    · rfl
+
+theorem peel_cases {ts : Types} (h : NoPtrPtr ts) (id : Nat) :
+    (peel ts 64 0 id).1 = 0 ∨ (peel ts 64 0 id).1 = 1 := by
+  rw [show (64 : Nat) = 63 + 1 from rfl, peel]
+  split
+  · next e he => right; rw [peel_nonptr ts 63 (0+1) e (fun e' => h id e e' he)]
+  · left; rfl
+
+theorem derefN_one {v inner : Val} (h : derefN 1 v = some inner) : v = .ptr (some inner) := by
+  cases v with
+  | ptr o => cases o with
+    | none => simp [derefN] at h
+    | some x => simp [derefN] at h; rw [h]
+  | _ => simp [derefN] at h
+
+def structFields : Val → List Val
+  | .struct fs => fs
+  | .ptr (some (.struct fs)) => fs
+  | _ => []
+
+theorem traverse_single (i : Nat) (v : Val) : traverse [i] v = (structFields v)[i]? := by
+  unfold traverse
+  cases v with
+  | struct fs => simp only [structFields]; cases fs[i]? <;> simp [traverse]
+  | ptr o => cases o with
+    | none => simp [structFields]
+    | some x => cases x <;> simp [structFields] <;> (next fs => cases fs[i]? <;> simp [traverse])
+  | _ => simp [structFields]
+
+theorem structFields_nodes (j : Nat) (v : Val) :
+    1 + ((structFields v).map fun x => 1 + valNodes j x).sum ≤ valNodes (j + 2) v := by
+  have hs : ∀ fs : List Val, 1 + (fs.map fun x => 1 + valNodes j x).sum ≤ valNodes (j + 1) (.struct fs) := by
+    intro fs; rw [valNodes_struct]; omega
+  cases v with
+  | struct fs => exact Nat.le_trans (hs fs) (valNodes_mono _ _)
+  | ptr o => cases o with
+    | none => simp [structFields, valNodes]
+    | some x =>
+      rw [valNodes_ptr]
+      cases x with
+      | struct fs => exact hs fs
+      | _ => simpa [structFields] using valNodes_pos _ _
+  | _ => simpa [structFields] using valNodes_pos _ _
+
+theorem mapM_snd {α β γ : Type} (f : α × γ → Option (β × γ)) (hf : ∀ x y, f x = some y → y.2 = x.2) :
+    ∀ (l : List (α × γ)) (r : List (β × γ)), l.mapM f = some r → r.map (·.2) = l.map (·.2)
+  | [], r, h => by simp at h; subst h; rfl
+  | x :: xs, r, h => by
+    rw [List.mapM_cons] at h
+    cases hx : f x with
+    | none => simp [hx] at h
+    | some y =>
+      cases hxs : xs.mapM f with
+      | none => simp [hx, hxs] at h
+      | some ys =>
+        simp [hx, hxs] at h
+        subst h
+        simp [mapM_snd f hf xs ys hxs, hf x y hx]
+
+
+/-! ### the bound -/
+
+/-- `omega`, after substituting the coefficient -/
+local macro "comega" : tactic => `(tactic| first | omega | (rcases ‹_ = 5 ∨ _ = 2› with h | h <;> subst h <;> omega))
+
+section
+variable (ts : Types) (a : Atlas) (trs : Trs) (c : Nat)
+
+/-- weight of one emitted struct field -/
+def fieldW (c j : Nat) (v : Val) (f : SMField) : Nat :=
+  match traverse f.route v with
+  | some fv => 1 + c * valNodes j fv
+  | none => 0
+
+def BV (k : Nat) : Prop := ∀ id v toks, marshalV ts a trs k id v = ⟨toks, none⟩ → toks.length ≤ c * valNodes k v
+def BB (k : Nat) : Prop := ∀ id m v toks, MOk c a m → marshalBare ts a trs k id m v = ⟨toks, none⟩ →
+  toks.length ≤ c * valNodes k v ∧ (isContainer m = true → toks.length + (c - 2) ≤ c * valNodes k v)
+def BL (k : Nat) : Prop := ∀ e es toks, marshalList ts a trs k e es = ⟨toks, none⟩ →
+  toks.length ≤ c * (es.map (valNodes k)).sum
+def BE (k : Nat) : Prop := ∀ vt kvs toks, marshalEntries ts a trs k vt kvs = ⟨toks, none⟩ →
+  toks.length ≤ (kvs.map fun p => 1 + c * valNodes k p.2).sum
+def BF (k : Nat) : Prop := ∀ fs v toks, marshalFields ts a trs k fs v = ⟨toks, none⟩ →
+  toks.length ≤ (fs.map (fieldW c (k - 1) v)).sum
+
+theorem bv_step (hc : c = 5 ∨ c = 2) (hpp : NoPtrPtr ts) (hpa : PlainAtlasC c a) (k : Nat) (hb : BB ts a trs c k) : BV ts a trs c (k + 1) := by
+  intro id v toks h
+  simp only [marshalV] at h
+  split at h
+  · exact Nat.le_trans (hb _ _ _ _ (mok_pick ts hpa _) h).1 (Nat.mul_le_mul_left c (valNodes_mono k v))
+  · next hn =>
+    split at h
+    · rw [ok_inv h]; have := valNodes_pos (k+1) v; simp; comega
+    · next inner hin =>
+      have h1 : (peel ts 64 0 id).1 = 1 := by
+        rcases peel_cases hpp id with h0 | h1
+        · simp [h0] at hn
+        · exact h1
+      rw [h1] at hin
+      rw [derefN_one hin, valNodes_ptr]
+      exact (hb _ _ _ _ (mok_pick ts hpa _) h).1
+
+theorem bl_step (hc : c = 5 ∨ c = 2) (k : Nat) (hv : BV ts a trs c k) (hl : BL ts a trs c k) : BL ts a trs c (k + 1) := by
+  intro e es toks h
+  cases es with
+  | nil => simp only [marshalList] at h; rw [ok_inv h]; simp
+  | cons x xs =>
+    simp only [marshalList] at h
+    obtain ⟨t1, t2, h1, h2, rfl⟩ := seq_inv h
+    have a1 := hv _ _ _ h1
+    have a2 := hl _ _ _ h2
+    have m1 := valNodes_mono k x
+    have m2 := sum_map_le xs (valNodes k) (valNodes (k+1)) (fun y _ => valNodes_mono k y)
+    simp only [List.length_append, List.map_cons, List.sum_cons]
+    comega
+
+theorem be_step (hc : c = 5 ∨ c = 2) (k : Nat) (hv : BV ts a trs c k) (he : BE ts a trs c k) : BE ts a trs c (k + 1) := by
+  intro vt kvs toks h
+  cases kvs with
+  | nil => simp only [marshalEntries] at h; rw [ok_inv h]; simp
+  | cons kx rest =>
+    obtain ⟨key, x⟩ := kx
+    simp only [marshalEntries] at h
+    obtain ⟨t0, t12, h0, h12, rfl⟩ := seq_inv h
+    obtain ⟨t1, t2, h1, h2, rfl⟩ := seq_inv h12
+    have a1 := hv _ _ _ h1
+    have a2 := he _ _ _ h2
+    have m1 := valNodes_mono k x
+    have m2 := sum_map_le rest (fun p => 1 + c * valNodes k p.2) (fun p => 1 + c * valNodes (k+1) p.2)
+      (fun y _ => by have := valNodes_mono k y.2; comega)
+    rw [ok_inv h0]
+    simp only [List.length_append, List.map_cons, List.sum_cons, List.length_cons, List.length_nil]
+    comega
+
+theorem fieldW_mono (hc : c = 5 ∨ c = 2) (j : Nat) (v : Val) (f : SMField) : fieldW c j v f ≤ fieldW c (j + 1) v f := by
+  unfold fieldW
+  split
+  · have := valNodes_mono j ‹Val›; comega
+  · exact Nat.le_refl _
+
+theorem bf_step (hc : c = 5 ∨ c = 2) (k : Nat) (hv : BV ts a trs c k) (hf : BF ts a trs c k) : BF ts a trs c (k + 1) := by
+  intro fs v toks h
+  cases fs with
+  | nil => simp only [marshalFields] at h; rw [ok_inv h]; simp
+  | cons f rest =>
+    simp only [marshalFields] at h
+    split at h
+    · exact absurd h bad_ne
+    · next fv hfv =>
+      obtain ⟨t0, t12, h0, h12, rfl⟩ := seq_inv h
+      obtain ⟨t1, t2, h1, h2, rfl⟩ := seq_inv h12
+      have a1 := hv _ _ _ h1
+      have a2 := hf _ _ _ h2
+      have m2 : (rest.map (fieldW c (k - 1) v)).sum ≤ (rest.map (fieldW c k v)).sum := by
+        apply sum_map_le
+        intro y _
+        cases k with
+        | zero => exact Nat.le_refl _
+        | succ k => exact fieldW_mono c hc k v y
+      rw [ok_inv h0]
+      simp only [List.length_append, List.map_cons, List.sum_cons, List.length_cons, List.length_nil,
+        Nat.add_sub_cancel]
+      have : fieldW c k v f = 1 + c * valNodes k fv := by simp [fieldW, hfv]
+      comega
+
+
+theorem simpleFields_filter {fs : List SMField} (p : SMField → Bool) (h : SimpleFields fs) : SimpleFields (fs.filter p) :=
+  ⟨fun f hf => h.1 f (List.mem_filter.mp hf).1, List.Nodup.sublist (List.Sublist.map _ List.filter_sublist) h.2⟩
+
+theorem struct_sum (hc : c = 5 ∨ c = 2) (j : Nat) (v : Val) (fs : List SMField) (h : SimpleFields fs) :
+    (fs.map (fieldW c j v)).sum ≤ ((structFields v).map fun x => 1 + c * valNodes j x).sum := by
+  have hnd : (fs.map fun f => f.route.headD 0).Nodup := by
+    have h2 := h.2
+    rw [List.nodup_iff_pairwise_ne, List.pairwise_map] at h2 ⊢
+    refine List.Pairwise.imp_of_mem ?_ h2
+    intro x y hx hy hne heq
+    obtain ⟨i, hi⟩ := h.1 x hx
+    obtain ⟨i', hi'⟩ := h.1 y hy
+    simp only [hi, hi', List.headD_cons] at heq hne
+    exact hne (by rw [heq])
+  have := sum_idx_le _ hnd ((structFields v).map fun x => 1 + c * valNodes j x)
+  rw [List.map_map] at this
+  refine Nat.le_trans (Nat.le_of_eq ?_) this
+  congr 1
+  apply List.map_congr_left
+  intro f hf
+  obtain ⟨i, hi⟩ := h.1 f hf
+  simp only [fieldW, hi, traverse_single, Function.comp, List.headD_cons, List.getElem?_map]
+  cases (structFields v)[i]? <;> simp
+
+theorem struct_bound_aux (hc : c = 5 ∨ c = 2) (j : Nat) (v : Val) (fields : List SMField) (p : SMField → Bool) (n : Nat)
+    (hm : SimpleFields fields) (a1 : n ≤ ((fields.filter p).map (fieldW c j v)).sum) :
+    n + c ≤ c * valNodes (j + 2) v := by
+  have a2 := struct_sum c hc j v _ (simpleFields_filter p hm)
+  have a3 := structFields_nodes j v
+  have a4 : ((structFields v).map fun x => 1 + c * valNodes j x).sum
+      ≤ c * ((structFields v).map fun x => 1 + valNodes j x).sum := by
+    rw [← sum_map_mul]
+    exact sum_map_le _ _ _ (fun x _ => by comega)
+  comega
+
+theorem prim_len (id : Nat) (v : Val) (toks : List Tok) (h : primTok ts id v = ⟨toks, none⟩) : toks.length = 1 := by
+  unfold primTok at h
+  split at h <;> first
+    | exact absurd h bad_ne
+    | (rw [ok_inv h]; rfl)
+
+theorem arr_len (hc : c = 5 ∨ c = 2) (k e : Nat) (es : List Val) (toks : List Tok) (hl : BL ts a trs c k)
+    (h : ((MOut.ok [⟨.arrOpen es.length, none⟩]).seq fun _ =>
+           (marshalList ts a trs k e es).seq fun _ => .ok [⟨.arrClose, none⟩]) = ⟨toks, none⟩) :
+    toks.length ≤ 2 + c * (es.map (valNodes k)).sum := by
+  obtain ⟨t0, t12, h0, h12, rfl⟩ := seq_inv h
+  obtain ⟨t1, t2, h1, h2, rfl⟩ := seq_inv h12
+  have := hl _ _ _ h1
+  rw [ok_inv h0, ok_inv h2]
+  simp only [List.length_append, List.length_cons, List.length_nil]
+  comega
+
+theorem bb_step (hc : c = 5 ∨ c = 2) (hpa : PlainAtlasC c a) (k : Nat) (hv : BV ts a trs c k) (hb : BB ts a trs c k) (hl : BL ts a trs c k)
+    (he : BE ts a trs c k) (hf : BF ts a trs c k) : BB ts a trs c (k + 1) := by
+  intro id m v toks hm h
+  have hpos := valNodes_pos (k+1) v
+  cases m with
+  | prim =>
+    unfold marshalBare at h; simp only at h
+    rw [prim_len ts id v toks h]
+    exact ⟨by comega, by simp [isContainer]⟩
+  | errThunk => unfold marshalBare at h; exact absurd h bad_ne
+  | panic => unfold marshalBare at h; exact absurd h bad_ne
+  | wildcard =>
+    unfold marshalBare at h; simp only at h
+    refine ⟨?_, by simp [isContainer]⟩
+    split at h
+    · rw [ok_inv h]; simp; comega
+    · rw [valNodes_iface]; exact hv _ _ _ h
+    · exact absurd h bad_ne
+  | slice e =>
+    unfold marshalBare at h; simp only at h
+    refine ⟨?_, by simp [isContainer]⟩
+    split at h
+    · rw [ok_inv h]; simp; comega
+    · have := arr_len ts a trs c hc k e _ toks hl h
+      rw [valNodes_slice]; comega
+    · exact absurd h bad_ne
+  | array e =>
+    unfold marshalBare at h; simp only at h
+    refine ⟨?_, by simp [isContainer]⟩
+    split at h
+    · have := arr_len ts a trs c hc k e _ toks hl h
+      rw [valNodes_arr]; comega
+    · exact absurd h bad_ne
+  | map kt vt mode =>
+    unfold marshalBare at h; simp only at h
+    suffices hs : toks.length + (c - 2) ≤ c * valNodes (k + 1) v from ⟨by comega, fun _ => hs⟩
+    split at h
+    · exact absurd h bad_ne
+    · next kf es _ =>
+      split at h
+      · exact absurd h bad_ne
+      · next kvs hkvs =>
+        split at h
+        · rw [ok_inv h]; simp; comega
+        · next hnn =>
+          cases es with
+          | none => simp at hnn
+          | some l =>
+            obtain ⟨t0, t12, h0, h12, rfl⟩ := seq_inv h
+            obtain ⟨t1, t2, h1, h2, rfl⟩ := seq_inv h12
+            have a1 := he _ _ _ h1
+            have p1 : ((sortKeys mode kvs).map fun p => 1 + c * valNodes k p.2).sum
+                = (kvs.map fun p => 1 + c * valNodes k p.2).sum :=
+              List.Perm.sum_nat (List.Perm.map _ (List.mergeSort_perm _ _))
+            have p2 : kvs.map (·.2) = l.map (·.2) := by
+              refine mapM_snd _ ?_ _ _ hkvs
+              intro x y hxy
+              split at hxy
+              · simp at hxy; rw [← hxy]
+              · split at hxy
+                · simp at hxy; rw [← hxy]
+                · simp at hxy
+              · simp at hxy
+            have p3 : (kvs.map fun p => 1 + c * valNodes k p.2).sum = (l.map fun p => 1 + c * valNodes k p.2).sum := by
+              have e1 : (kvs.map fun p => 1 + c * valNodes k p.2) = (kvs.map (·.2)).map (fun x => 1 + c * valNodes k x) := by
+                simp [List.map_map, Function.comp]
+              have e2 : (l.map fun p => 1 + c * valNodes k p.2) = (l.map (·.2)).map (fun x => 1 + c * valNodes k x) := by
+                simp [List.map_map, Function.comp]
+              rw [e1, e2, p2]
+            have p4 : (l.map fun p => 1 + c * valNodes k p.2).sum ≤ c * (l.map fun p => 1 + valNodes k p.2).sum := by
+              rw [← sum_map_mul]
+              exact sum_map_le _ _ _ (fun x _ => by comega)
+            rw [ok_inv h0, ok_inv h2, valNodes_map]
+            simp only [List.length_append, List.length_cons, List.length_nil]
+            comega
+    · exact absurd h bad_ne
+  | structMap e fields =>
+    unfold marshalBare at h; simp only at h
+    suffices hs : toks.length + (c - 2) ≤ c * valNodes (k + 1) v from ⟨by comega, fun _ => hs⟩
+    obtain ⟨t0, t12, h0, h12, rfl⟩ := seq_inv h
+    obtain ⟨t1, t2, h1, h2, rfl⟩ := seq_inv h12
+    cases k with
+    | zero => simp only [marshalFields] at h1; exact absurd h1 bad_ne
+    | succ j =>
+      have a1 := hf _ _ _ h1
+      simp only [Nat.add_sub_cancel] at a1
+      have a2 := struct_bound_aux c hc j v fields _ _ hm a1
+      rw [show j + 2 = j + 1 + 1 from rfl] at a2
+      rw [ok_inv h0, ok_inv h2]
+      simp only [List.length_append, List.length_cons, List.length_nil]
+      comega
+  | transform e fn mty => exact absurd hm (by simp [MOk])
+  | union e members =>
+    unfold marshalBare at h; simp only at h
+    refine ⟨?_, by simp [isContainer]⟩
+    split at h
+    · exact absurd h bad_ne
+    · next dt dv =>
+      split at h
+      · exact absurd h bad_ne
+      · next _ name idx hfind =>
+        split at h
+        · exact absurd h bad_ne
+        · next _ me hme =>
+          split at h
+          · exact absurd h bad_ne
+          · obtain ⟨t0, t12, h0, h12, rfl⟩ := seq_inv h
+            obtain ⟨t1, t2, h1, h2, rfl⟩ := seq_inv h12
+            have hmem : me ∈ a.pool := List.mem_of_getElem? hme
+            have hc5 := hm.1
+            subst hc5
+            have hnu := hm.2 (name, idx) (List.mem_of_find?_eq_some hfind) me hme
+            have a1 := (hb _ _ _ _ (mok_entry ts hpa hmem) h1).2 (container_entry ts hpa hmem hnu)
+            rw [ok_inv h0, ok_inv h2, valNodes_iface]
+            simp only [List.length_append, List.length_cons, List.length_nil]
+            comega
+    · exact absurd h bad_ne
+
+
+theorem all_bound (hc : c = 5 ∨ c = 2) (hpp : NoPtrPtr ts) (hpa : PlainAtlasC c a) (k : Nat) :
+    BV ts a trs c k ∧ BB ts a trs c k ∧ BL ts a trs c k ∧ BE ts a trs c k ∧ BF ts a trs c k := by
+  induction k with
+  | zero =>
+    refine ⟨?_, ?_, ?_, ?_, ?_⟩
+    · intro id v toks h; simp only [marshalV] at h; exact absurd h bad_ne
+    · intro id m v toks _ h; simp only [marshalBare] at h; exact absurd h bad_ne
+    · intro e es toks h; simp only [marshalList] at h; exact absurd h bad_ne
+    · intro e es toks h; simp only [marshalEntries] at h; exact absurd h bad_ne
+    · intro e es toks h; simp only [marshalFields] at h; exact absurd h bad_ne
+  | succ n ih =>
+    obtain ⟨hv, hb, hl, he, hf⟩ := ih
+    exact ⟨bv_step ts a trs c hc hpp hpa n hb, bb_step ts a trs c hc hpa n hv hb hl he hf,
+      bl_step ts a trs c hc n hv hl, be_step ts a trs c hc n hv he, bf_step ts a trs c hc n hv hf⟩
+
+end
+
+/-- atlas hypotheses of `marshal_bound`: no transforms; every struct-map field is a direct field (route of length 1)
+    and no field is listed twice; a keyed union never has a keyed union as a member -/
+def PlainAtlas (a : Atlas) : Prop := PlainAtlasC 5 a
+
+/-- atlas hypotheses of `marshal_bound_plain_fixed`: as `PlainAtlas`, and no keyed unions at all -/
+def PlainAtlasNoUnion (a : Atlas) : Prop := PlainAtlasC 2 a
+
+theorem plainAtlas_iff (a : Atlas) : PlainAtlas a ↔
+    (∀ e ∈ a.pool, ∀ fn m u, e.k ≠ .transform fn m u) ∧
+    (∀ e ∈ a.pool, ∀ fs, e.k = .structMap fs → SimpleFields fs) ∧
+    (∀ e ∈ a.pool, ∀ ms, e.k = .union ms → ∀ p ∈ ms, ∀ me, a.pool[p.2]? = some me → ∀ ms', me.k ≠ .union ms') :=
+  ⟨fun h => ⟨h.notr, h.fields, fun e he ms hk => (h.unions e he ms hk).2⟩,
+   fun h => ⟨h.1, h.2.1, fun e he ms hk => ⟨rfl, h.2.2 e he ms hk⟩⟩⟩
+
+theorem plainAtlasNoUnion_iff (a : Atlas) : PlainAtlasNoUnion a ↔
+    (∀ e ∈ a.pool, ∀ fn m u, e.k ≠ .transform fn m u) ∧
+    (∀ e ∈ a.pool, ∀ fs, e.k = .structMap fs → SimpleFields fs) ∧
+    (∀ e ∈ a.pool, ∀ ms, e.k ≠ .union ms) :=
+  ⟨fun h => ⟨h.notr, h.fields, fun e he ms hk => absurd (h.unions e he ms hk).1 (by decide)⟩,
+   fun h => ⟨h.1, h.2.1, fun e he ms hk => absurd hk (h.2.2 e he ms)⟩⟩
+
+/-- Corrected bound, keyed unions allowed: at most five tokens per node of the value.
+    (The coefficient 5 is needed: `n` union-wrapped empty structs in a slice give `5 n + 2` tokens for `n + 1` nodes.) -/
+theorem marshal_bound (ts : Types) (a : Atlas) (trs : Trs) (fuel id : Nat) (v : Val) (toks : List Tok)
+    (hpp : NoPtrPtr ts) (hpa : PlainAtlas a)
+    (h : marshalV ts a trs fuel id v = ⟨toks, none⟩) :
+    toks.length ≤ 5 * valNodes fuel v :=
+  (all_bound ts a trs 5 (Or.inl rfl) hpp hpa fuel).1 id v toks h
+
+/-- Without keyed unions two tokens per node suffice … -/
+theorem marshal_bound_two (ts : Types) (a : Atlas) (trs : Trs) (fuel id : Nat) (v : Val) (toks : List Tok)
+    (hpp : NoPtrPtr ts) (hpa : PlainAtlasNoUnion a)
+    (h : marshalV ts a trs fuel id v = ⟨toks, none⟩) :
+    toks.length ≤ 2 * valNodes fuel v :=
+  (all_bound ts a trs 2 (Or.inr rfl) hpp hpa fuel).1 id v toks h
+
+/-- … hence the bound as first stated holds under the three missing hypotheses
+    (direct, pairwise distinct struct fields; no keyed unions; no pointer-to-pointer types). -/
+theorem marshal_bound_plain_fixed (ts : Types) (a : Atlas) (trs : Trs) (fuel id : Nat) (v : Val) (toks : List Tok)
+    (hpp : NoPtrPtr ts) (hpa : PlainAtlasNoUnion a)
     (h : marshalV ts a trs fuel id v = ⟨toks, none⟩) :
     toks.length ≤ 3 * valNodes fuel v + 2 := by
-  sorry
+  have := marshal_bound_two ts a trs fuel id v toks hpp hpa h
+  omega
+
+
+theorem seq_congr_np {a a' : MOut} {b b' : Unit → MOut} (hnp : (a.seq b).fail ≠ some .panic)
+    (ha : a.fail ≠ some .panic → a' = a) (hb : (b ()).fail ≠ some .panic → b' () = b ()) :
+    a'.seq b' = a.seq b := by
+  unfold MOut.seq at hnp ⊢
+  cases hf : a.fail with
+  | some f =>
+    rw [hf] at hnp
+    simp only at hnp
+    rw [ha hnp, hf]
+  | none =>
+    rw [hf] at hnp
+    simp only at hnp
+    rw [ha (by simp [hf]), hf]
+    simp only
+    rw [hb hnp]
+
+theorem retag_fail (tag : Option Int) (o : MOut) : (retagFirst tag o).fail = o.fail := by
+  unfold retagFirst; split <;> rfl
+
+section
+variable (ts : Types) (a : Atlas) (trs : Trs)
+
+def QV (n : Nat) : Prop := ∀ id v, (marshalV ts a trs n id v).fail ≠ some .panic → marshalV ts a trs (n+1) id v = marshalV ts a trs n id v
+def QB (n : Nat) : Prop := ∀ id m v, (marshalBare ts a trs n id m v).fail ≠ some .panic → marshalBare ts a trs (n+1) id m v = marshalBare ts a trs n id m v
+def QL (n : Nat) : Prop := ∀ e es, (marshalList ts a trs n e es).fail ≠ some .panic → marshalList ts a trs (n+1) e es = marshalList ts a trs n e es
+def QE (n : Nat) : Prop := ∀ e es, (marshalEntries ts a trs n e es).fail ≠ some .panic → marshalEntries ts a trs (n+1) e es = marshalEntries ts a trs n e es
+def QF (n : Nat) : Prop := ∀ fs v, (marshalFields ts a trs n fs v).fail ≠ some .panic → marshalFields ts a trs (n+1) fs v = marshalFields ts a trs n fs v
+
+theorem qv_step (n : Nat) (hb : QB ts a trs n) : QV ts a trs (n+1) := by
+  intro id v hnp
+  simp only [marshalV] at hnp ⊢
+  split
+  · next h0 => rw [if_pos h0] at hnp; exact hb _ _ _ hnp
+  · next h0 =>
+    rw [if_neg h0] at hnp
+    split
+    · rfl
+    · next inner hin => rw [hin] at hnp; exact hb _ _ _ hnp
+
+theorem ql_step (n : Nat) (hv : QV ts a trs n) (hl : QL ts a trs n) : QL ts a trs (n+1) := by
+  intro e es hnp
+  cases es with
+  | nil => simp only [marshalList]
+  | cons x xs =>
+    simp only [marshalList] at hnp ⊢
+    exact seq_congr_np hnp (hv _ _) (hl _ _)
+
+theorem qe_step (n : Nat) (hv : QV ts a trs n) (he : QE ts a trs n) : QE ts a trs (n+1) := by
+  intro e es hnp
+  cases es with
+  | nil => simp only [marshalEntries]
+  | cons kx xs =>
+    obtain ⟨k, x⟩ := kx
+    simp only [marshalEntries] at hnp ⊢
+    exact seq_congr_np hnp (fun _ => rfl) (fun h2 => seq_congr_np h2 (hv _ _) (he _ _))
+
+theorem qf_step (n : Nat) (hv : QV ts a trs n) (hf : QF ts a trs n) : QF ts a trs (n+1) := by
+  intro fs v hnp
+  cases fs with
+  | nil => simp only [marshalFields]
+  | cons f rest =>
+    simp only [marshalFields] at hnp ⊢
+    split
+    · rfl
+    · next fv hfv =>
+      rw [hfv] at hnp
+      exact seq_congr_np hnp (fun _ => rfl) (fun h2 => seq_congr_np h2 (hv _ _) (hf _ _))
+
+theorem qb_step (n : Nat) (hv : QV ts a trs n) (hb : QB ts a trs n) (hl : QL ts a trs n)
+    (he : QE ts a trs n) (hf : QF ts a trs n) : QB ts a trs (n+1) := by
+  intro id m v hnp
+  cases m with
+  | prim => unfold marshalBare; rfl
+  | errThunk => unfold marshalBare; rfl
+  | panic => unfold marshalBare; rfl
+  | wildcard =>
+    unfold marshalBare at hnp ⊢; simp only at hnp ⊢
+    split at hnp
+    · rfl
+    · exact hv _ _ hnp
+    · exact absurd rfl hnp
+  | slice e =>
+    unfold marshalBare at hnp ⊢; simp only at hnp ⊢
+    split at hnp
+    · rfl
+    · exact seq_congr_np hnp (fun _ => rfl) (fun h2 => seq_congr_np h2 (hl _ _) (fun _ => rfl))
+    · exact absurd rfl hnp
+  | array e =>
+    unfold marshalBare at hnp ⊢; simp only at hnp ⊢
+    split at hnp
+    · exact seq_congr_np hnp (fun _ => rfl) (fun h2 => seq_congr_np h2 (hl _ _) (fun _ => rfl))
+    · exact absurd rfl hnp
+  | map kt vt mode =>
+    unfold marshalBare at hnp ⊢; simp only at hnp ⊢
+    split at hnp
+    · rfl
+    · next kf es h1 =>
+      split at hnp
+      · rfl
+      · next kvs h2 =>
+        split at hnp
+        · next h3 => simp only [if_pos h3]
+        · next h3 =>
+          simp only [if_neg h3]
+          exact seq_congr_np hnp (fun _ => rfl) (fun h2 => seq_congr_np h2 (he _ _) (fun _ => rfl))
+    · exact absurd rfl hnp
+  | structMap e fields =>
+    unfold marshalBare at hnp ⊢; simp only at hnp ⊢
+    exact seq_congr_np hnp (fun _ => rfl) (fun h2 => seq_congr_np h2 (hf _ _) (fun _ => rfl))
+  | transform e fn mty =>
+    unfold marshalBare at hnp ⊢; simp only at hnp ⊢
+    split at hnp
+    · rfl
+    · next tv h1 =>
+      rw [retag_fail] at hnp
+      rw [hv _ _ hnp]
+  | union e members =>
+    unfold marshalBare at hnp ⊢; simp only at hnp ⊢
+    split at hnp
+    · rfl
+    · next dt dv =>
+     split at hnp
+     · rfl
+     · split at hnp
+       · rfl
+       · next me hme =>
+          have hin : (marshalBare ts a trs n dt (machForEntry ts me) dv).fail ≠ some .panic := by
+            intro hc
+            split at hnp
+            · next f ht hf' => rw [hc] at hf'; cases hf'; exact hnp rfl
+            · simp [MOut.seq, MOut.ok, hc] at hnp
+          rw [hb _ _ _ hin]
+    · exact absurd rfl hnp
+
+theorem all_mono (n : Nat) :
+    QV ts a trs n ∧ QB ts a trs n ∧ QL ts a trs n ∧ QE ts a trs n ∧ QF ts a trs n := by
+  induction n with
+  | zero =>
+    refine ⟨?_, ?_, ?_, ?_, ?_⟩
+    · intro id v h; simp only [marshalV] at h; exact absurd rfl h
+    · intro id m v h; simp only [marshalBare] at h; exact absurd rfl h
+    · intro e es h; simp only [marshalList] at h; exact absurd rfl h
+    · intro e es h; simp only [marshalEntries] at h; exact absurd rfl h
+    · intro e es h; simp only [marshalFields] at h; exact absurd rfl h
+  | succ n ih =>
+    obtain ⟨hv, hb, hl, he, hf⟩ := ih
+    exact ⟨qv_step ts a trs n hb, qb_step ts a trs n hv hb hl he hf, ql_step ts a trs n hv hl,
+      qe_step ts a trs n hv he, qf_step ts a trs n hv hf⟩
+
+end
 
 /-- more fuel never changes a result that was not a fuel exhaustion (successful or error) -/
 theorem marshal_fuel_mono (ts : Types) (a : Atlas) (trs : Trs) (fuel id : Nat) (v : Val) (o : MOut)
     (h : marshalV ts a trs fuel id v = o) (hp : o.fail ≠ some .panic) :
     marshalV ts a trs (fuel + 1) id v = o := by
-  sorry
+  subst h
+  exact (all_mono ts a trs fuel).1 id v hp
+
+/-- hence any larger fuel gives the same result -/
+theorem marshal_fuel_mono_le (ts : Types) (a : Atlas) (trs : Trs) (fuel fuel' id : Nat) (v : Val) (o : MOut)
+    (h : marshalV ts a trs fuel id v = o) (hp : o.fail ≠ some .panic) (hle : fuel ≤ fuel') :
+    marshalV ts a trs fuel' id v = o := by
+  induction hle with
+  | refl => exact h
+  | step _ ih => exact marshal_fuel_mono ts a trs _ id v o ih hp
+
+
+/-- the struct machine, precisely: the header announces exactly the number of fields that pass the
+    ignore / unreachable / omitempty filter, and exactly that many key/value pairs follow -/
+theorem struct_count_matches_walk_strong (ts : Types) (a : Atlas) (trs : Trs) (fuel id : Nat) (e : Entry) (fields : List SMField)
+    (v : Val) (toks : List Tok) (h : marshalBare ts a trs fuel id (.structMap e fields) v = ⟨toks, none⟩) :
+    ∃ es : List (TV × TV),
+      es.length = (fields.filter fun f =>
+          !f.ignore && (match traverse f.route v with
+                        | none => false
+                        | some fv => !(f.omitEmpty && isEmpty 1000 fv))).length ∧
+      toks = (TV.map e.tag (es.length : Nat) es).flatten ∧ GoodE es := by
+  cases fuel with
+  | zero => simp only [marshalBare] at h; exact absurd h bad_ne
+  | succ fuel =>
+    unfold marshalBare at h; simp only at h
+    obtain ⟨t0, t12, h0, h12, rfl⟩ := seq_inv h
+    obtain ⟨t1, t2, h1, h2, rfl⟩ := seq_inv h12
+    obtain ⟨es, rfl, hlen, g⟩ := (all_fuel ts a trs fuel).2.2.2.2 _ _ _ h1
+    refine ⟨es, hlen, ?_, g⟩
+    rw [ok_inv h0, ok_inv h2, ← hlen]
+    simp [TV.flatten]
 
 /-- the struct header count equals the number of key/value pairs the walk emits, for every
     combination of empty / ignored / unreachable fields -/
@@ -79,6 +1163,7 @@ theorem struct_count_matches_walk (ts : Types) (a : Atlas) (trs : Trs) (fuel id 
     (v : Val) (toks : List Tok) (h : marshalBare ts a trs fuel id (.structMap e fields) v = ⟨toks, none⟩) :
     ∃ n es, toks = ⟨.mapOpen (n : Nat), e.tag⟩ :: es ∧
       ∃ tv : TV, toks = tv.flatten ∧ tv.lengthsOk = true := by
-  sorry
+  obtain ⟨es, _, rfl, g⟩ := struct_count_matches_walk_strong ts a trs fuel id e fields v toks h
+  exact ⟨es.length, _, by simp only [TV.flatten]; rfl, _, rfl, (good_map g).1⟩
 
 end Refmt.C07
